@@ -94,11 +94,15 @@ fn b01(b: bool) -> &'static str {
     if b { "1" } else { "0" }
 }
 
-fn an_inline_image(ctx: &Ctx) -> Op {
+/// an `Op::InlineImage` to plant into sequences (`None` when the library cannot read one: the oracles report that)
+fn an_inline_image(ctx: &Ctx) -> Option<Op> {
     let mut data = vec![];
     print_image(&Some((2, 1, b'A')), &mut data);
     data.push(b'\n');
-    ctx.parse(&data, false).expect("inline image").pop().expect("one op")
+    match ctx.parse(&data, false) {
+        Ok(mut ops) if ops.len() == 1 && matches!(ops[0], Op::InlineImage { .. }) => ops.pop(),
+        _ => None,
+    }
 }
 
 // ---------------------------------------------------------------------------------------------------
@@ -172,8 +176,10 @@ fn gen_ser_case(ctx: &Ctx, seed: u64, name: &str, case: u64, outside: bool, hist
     } else if rng.chance(1, 25) {
         // the serializer rejects inline images
         let i = rng.usize(v.len() + 1);
-        v.insert(i, an_inline_image(ctx));
-        hist("with-inline-image");
+        if let Some(img) = an_inline_image(ctx) {
+            v.insert(i, img);
+            hist("with-inline-image");
+        }
     }
     v
 }
